@@ -27,7 +27,7 @@ TIE = {
  'C20': 'T2 with fact predicates replaced by registered Python generators (explicit/inferred/variadic, yield True/False, raising)',
 }
 PARTIAL = {
- 'C01': ' Partial: the body-level equation exec(comp b) = solve b (Theorem A) is proved only rewriting step by rewriting step (C06); its composition is checked on the executable definitions, not yet proved.',
+ 'C01': ' Partial: body-level (Theorem A) and program-level correctness are proved for the clause activation the generated code performs; the step to the textbook activation (fresh variable per clause variable) holds only up to renaming and is checked by the three-way tie, not proved. The flag protocol of the emitted Python text (Theorem B of the plan) is not proved; tie T1 + executing the real output stand in.',
  'C02': ' Partial: most-generality/completeness is not proved; it is decided per case against the independent unifier.',
  'C04': ' Partial: zig-zag stepping of suspended generators and threads are outside the push-style model; sampled only.',
  'C17': ' Partial: the model counts depth in calls, CPython in frames; where the prefix is cut is not predicted. Restoring the interpreter-wide limit is runtime behaviour, checked not proved.',
